@@ -537,6 +537,68 @@ func (c *Ctx) parseKeyByFoldingUncached() (string, int, bool) {
 	return "", n, true
 }
 
+// parseNoteByFolding decides what note.ParseNote accepts by folding it on letter x accidental spellings with and without
+// text around them: exactly a letter A-G with nothing, # or b is read, as that note; everything else is refused.
+func (c *Ctx) parseNoteByFolding() (string, int, bool) {
+	fn := c.fn("note", "ParseNote")
+	if fn == nil || len(fn.Params) != 1 {
+		return "", 0, false
+	}
+	names := c.enumConsts("note", "Name")
+	accs := c.enumConsts("note", "Accidental")
+	accOf := map[string]string{"": "Natural", "#": "Sharp", "b": "Flat"}
+	n := 0
+	for _, letter := range []string{"A", "B", "C", "D", "E", "F", "G", "H", "a", "g", ""} {
+		for _, acc := range []string{"", "#", "b", "##", "bb", "#b", "♯", "x", "m"} {
+			for _, pad := range [][2]string{{"", ""}, {" ", ""}, {"", " "}, {"x", ""}, {"", "C"}, {"\n", ""}, {"", "\n"}} {
+				text := pad[0] + letter + acc + pad[1]
+				_, okL := names[letter]
+				an, okA := accOf[acc]
+				valid := okL && okA && pad[0] == "" && pad[1] == ""
+				if !valid {
+					// the same text may spell a note another way (e.g. "" + "b" + pad "C" ... no: one letter then at most one mark)
+					if len(text) >= 1 && len(text) <= 2 {
+						_, l2 := names[text[:1]]
+						_, a2 := accOf[text[1:]]
+						if l2 && a2 {
+							continue
+						}
+					}
+				}
+				fd := c.newFolder()
+				fd.maxSteps = 20000
+				r, err := fd.foldCall(fn, []fval{{k: constant.MakeString(text), t: types.Typ[types.String]}})
+				if err != nil || len(r.tuple) != 2 || !(r.tuple[1].isNil || r.tuple[1].nonNil) {
+					if os.Getenv("CRDCHECK_DEBUG") != "" {
+						fmt.Fprintf(os.Stderr, "parseNoteByFolding: %q does not fold: %v %s\n", text, err, r.String())
+					}
+					return "", 0, false
+				}
+				n++
+				if r.tuple[1].nonNil {
+					if valid {
+						return fmt.Sprintf("%q is refused, it spells a note", text), n, true
+					}
+					continue
+				}
+				if !valid {
+					return fmt.Sprintf("%q is accepted (as %s), it is not a note spelling: nonsense is turned into some note instead of being refused", text, r.tuple[0].String()), n, true
+				}
+				k := r.tuple[0]
+				if k.fields == nil || k.fields["Name"].k == nil || k.fields["Accidental"].k == nil {
+					return "", 0, false
+				}
+				gn, _ := constant.Int64Val(k.fields["Name"].k)
+				ga, _ := constant.Int64Val(k.fields["Accidental"].k)
+				if gn != names[letter] || ga != accs[an] {
+					return fmt.Sprintf("%q is read as %s", text, k.String()), n, true
+				}
+			}
+		}
+	}
+	return "", n, true
+}
+
 // metaConvertByFolding decides astconv.MetaConverterImpl.Convert by folding it on metadata blocks of 0 to 4 pairs
 // (one with a repeated key): the result holds every written key with its own value - for a repeated key the value
 // written last - and nothing else; no block and an empty block give no metadata.
